@@ -405,5 +405,141 @@ def replay_special(prop, path, d):  # noqa: F811
         return replay_aux(prop, path)
     if d["flavour"] == "special:twin":
         return replay_twin(prop, path, d)
+    if d["flavour"] == "special:cx":
+        return replay_cx(prop, path)
     print("no special replay for", d["flavour"])
     return 2
+
+
+# ------------------------------------------------------------------------------------------ C08
+CXDIR = os.path.join(VERIF, "cx")
+CX_COMPILERS = {
+    "g++": ["g++", "-std=c++20", "-O0", "-w", "-fconstexpr-ops-limit=2000000000", "-fconstexpr-loop-limit=100000000"],
+    "clang++": ["clang++", "-std=c++20", "-O0", "-w", "-fconstexpr-steps=2000000000"],
+    "g++-2b": ["g++", "-std=c++2b", "-O0", "-w", "-fconstexpr-ops-limit=2000000000", "-fconstexpr-loop-limit=100000000"],
+}
+
+
+def _cx_compile_run(src_path, comp):
+    exe = src_path[:-4] + "-" + comp.replace("+", "x")
+    cmd = CX_COMPILERS[comp] + ["-I" + CXDIR, "-I" + B.include_dir(), src_path, "-o", exe]
+    p = subprocess.run(cmd, stdout=subprocess.PIPE, stderr=subprocess.STDOUT, text=True)
+    if p.returncode != 0:
+        return dict(compiled=False, diag=p.stdout, out="", rc=None, cmd=" ".join(cmd))
+    rc, out, err = D.run_proc([exe], timeout=300)
+    try:
+        os.unlink(exe)
+    except OSError:
+        pass
+    return dict(compiled=True, diag="", out=out, rc=rc, cmd=" ".join(cmd))
+
+
+def _cx_diag_summary(diag):
+    keep = [l for l in diag.splitlines() if "error" in l or "not a constant" in l or "constexpr" in l]
+    return "\n".join(keep[:12])
+
+
+def c08(prop, tier, seed, known):
+    import cxgen
+    from concurrent.futures import ThreadPoolExecutor
+    q = tier == "quick"
+    batches = 10 if q else 300
+    per = 40
+    nops = 24 if q else 36
+    comps = ["g++", "clang++"] if q else ["g++", "clang++", "g++-2b"]
+    key = B.tree_key()
+    cdir = os.path.join(B.CACHE, "k-" + key, "cx-%s-%d" % (tier, seed))
+    os.makedirs(cdir, exist_ok=True)
+    jobs = []
+    metas = {}
+    for b in range(batches):
+        src, meta = cxgen.make_tu(seed, b, per, nops)
+        path = os.path.join(cdir, "cx_%04d.cpp" % b)
+        with open(path, "w") as f:
+            f.write(src)
+        metas[b] = meta
+        for c in comps:
+            jobs.append((b, c, path))
+    with ThreadPoolExecutor(max_workers=D.NCPU) as ex:
+        results = list(ex.map(lambda j: _cx_compile_run(j[2], j[1]), jobs))
+    violations = []
+    histories = steps = 0
+    distinct = set()
+    samples = []
+    err = None
+    for (b, c, path), r in zip(jobs, results):
+        if not r["compiled"]:
+            diag = _cx_diag_summary(r["diag"])
+            if "constant expression" in r["diag"] or "constexpr" in r["diag"]:
+                os.makedirs(os.path.join(VERIF, "replays"), exist_ok=True)
+                rp = os.path.join(VERIF, "replays", "C08-batch%04d-%s.replay" % (b, c.replace("+", "x")))
+                with open(rp, "w") as f:
+                    f.write("svsim-replay 1\nproperty C08\nflavour special:cx\ncompiler %s\nseed %d\nbatch %d\n"
+                            "per %d\nnops %d\nexpect cx.not_constant\n" % (c, seed, b, per, nops))
+                    f.write("detail " + diag.replace("\n", "\ndetail ") + "\n")
+                violations.append((None, _special_violation(prop, "cx.not_constant", c,
+                                                            "batch %d is not a constant expression under %s: %s" % (b, c, diag[:400]), rp)))
+            else:
+                err = "constexpr batch %d failed to compile under %s for another reason: %s" % (b, c, diag[:600])
+            continue
+        for line in r["out"].splitlines():
+            if line.startswith("CXMISMATCH"):
+                os.makedirs(os.path.join(VERIF, "replays"), exist_ok=True)
+                tok = dict(t.split("=", 1) for t in line.split()[1:4])
+                rp = os.path.join(VERIF, "replays", "C08-batch%04d-h%s-%s.replay" % (b, tok.get("hist"), c.replace("+", "x")))
+                h = metas[b][int(tok.get("hist", 0))]
+                with open(rp, "w") as f:
+                    f.write("svsim-replay 1\nproperty C08\nflavour special:cx\ncompiler %s\nseed %d\nbatch %d\n"
+                            "per %d\nnops %d\nexpect cx.trace_mismatch\nline %s\nhistory %s\n" % (c, seed, b, per, nops, line, h["text"]))
+                if len(violations) < 6:
+                    violations.append((None, _special_violation(prop, "cx.trace_mismatch", "op%s" % tok.get("op"),
+                                                                line + " (" + c + ")", rp)))
+            elif line.startswith("CX "):
+                d = dict(t.split("=", 1) for t in line.split()[1:])
+                if c == comps[0]:
+                    histories += int(d.get("histories", 0))
+                    steps += int(d.get("steps", 0))
+        if c == comps[0]:
+            for m in metas[b]:
+                if m["nontrivial"]:
+                    distinct.add(m["digest"])
+            if len(samples) < 2:
+                samples.append("%s: ops (kind:target:p0:p1:p2) %s" % (metas[b][0]["config"], metas[b][0]["text"][:400]))
+    cov = dict(extra_evaluations=histories * len(comps), extra_distinct=len(distinct), extra_samples=samples,
+               histories=histories, steps_per_executor=steps, compilers=comps, translation_units=batches,
+               executors=["constant evaluator of each compiler", "same function at run time in the same binary"],
+               element_types=cxgen.ELEMS, capacity_pairs=cxgen.NM,
+               allocators=["std::allocator", "stateful allocator with POCCA/POCMA/POCS = true"],
+               fault_dimension="none: constant evaluation cannot throw, the fault dimension is empty by construction")
+    return dict(coverage=cov, violations=violations, error=err)
+
+
+SPECIALS["C08"] = c08
+
+
+def replay_cx(prop, path):
+    import cxgen
+    d = {}
+    with open(path) as f:
+        for line in f:
+            k, _, v = line.rstrip("\n").partition(" ")
+            if k in ("compiler", "seed", "batch", "per", "nops", "expect", "line"):
+                d[k] = v
+    src, meta = cxgen.make_tu(int(d["seed"]), int(d["batch"]), int(d["per"]), int(d["nops"]))
+    p = os.path.join(B.CACHE, "cx-replay-%d.cpp" % os.getpid())
+    with open(p, "w") as f:
+        f.write(src)
+    r = _cx_compile_run(p, d["compiler"])
+    os.unlink(p)
+    if not r["compiled"]:
+        print(_cx_diag_summary(r["diag"]))
+        if d["expect"] == "cx.not_constant":
+            print("VIOLATION property=%s replay=%s" % (prop, path))
+            return 1
+        return 2
+    if d["expect"] == "cx.trace_mismatch" and d.get("line") in r["out"].splitlines():
+        print(d["line"])
+        print("VIOLATION property=%s replay=%s" % (prop, path))
+        return 1
+    print("[replay] batch compiles and compile-time and run-time traces agree")
+    return 0
